@@ -76,6 +76,15 @@ def run_cvc5(text, timeout_s, want_model=False, extra=()):
     return run_cli(cmd, text, timeout_s)
 
 
+Z3NEW = '/usr/local/bin/z3-new'
+
+
+def run_z3new(text, timeout_s, want_model=False):
+    import shutil
+    exe = Z3NEW if os.path.exists(Z3NEW) else (shutil.which('z3-new') or Z3OLD)
+    return run_cli([exe, '-T:%d' % max(1, int(timeout_s)), '-smt2'], text, timeout_s)
+
+
 def run_z3old(text, timeout_s, want_model=False):
     cmd = [Z3OLD, '-T:%d' % int(timeout_s), '-smt2']
     if want_model:
@@ -92,7 +101,7 @@ def solve(text, timeout_s=10, thorough=False, want_model=False):
     final = None
     for be in order:
         if be == 'z3':
-            r = run_z3api(text, timeout_s, want_model)
+            r = run_z3new(text, timeout_s, want_model)
         elif be == 'cvc5':
             r = run_cvc5(text, timeout_s, want_model)
         else:
